@@ -430,6 +430,7 @@ struct Collect {
     blocks_open: Vec<usize>,
     enum_loops: Vec<EnumLoop>,
     plain_loops: Vec<(usize, usize, usize, usize, usize, usize)>, // for_start, pat_start, pat_end, expr_start, expr_end, body_open_end
+    rev_loops: Vec<(usize, usize, usize, usize, usize, usize, usize, usize, usize)>, // for_start, pat_start, pat_end, expr_end, lo_start, lo_end, hi_start, hi_end, body_open_end
     compound: Vec<(usize, usize, usize, usize, usize, String)>,
     rename_from: String,
     rename_hits: Vec<(usize, usize, bool)>, // start, end, is_shorthand_field
@@ -476,8 +477,24 @@ impl<'ast> Visit<'ast> for Collect {
     }
     fn visit_expr_for_loop(&mut self, e: &'ast syn::ExprForLoop) {
         self.loops.push(("for".into(), br(e.body.brace_token.span.open()).0, Some(br(e.expr.span()).0)));
+        let mut is_rev_range = false;
         if let (syn::Pat::Ident(_), syn::Expr::MethodCall(mc)) = (&*e.pat, &*e.expr) {
-            if mc.method != "enumerate" {
+            if mc.method == "rev" && mc.args.is_empty() {
+                if let syn::Expr::Paren(pe) = &*mc.receiver {
+                    if let syn::Expr::Range(r) = &*pe.expr {
+                        if let (Some(lo), Some(hi), syn::RangeLimits::HalfOpen(_)) = (&r.start, &r.end, &r.limits) {
+                            let (ps, pe_) = br(e.pat.span());
+                            let (ls, le) = br(lo.span());
+                            let (hs, he) = br(hi.span());
+                            self.rev_loops.push((br(e.for_token.span).0, ps, pe_, br(e.expr.span()).1, ls, le, hs, he, br(e.body.brace_token.span.open()).1));
+                            is_rev_range = true;
+                        }
+                    }
+                }
+            }
+        }
+        if let (syn::Pat::Ident(_), syn::Expr::MethodCall(mc)) = (&*e.pat, &*e.expr) {
+            if mc.method != "enumerate" && !is_rev_range {
                 let (ps, pe) = br(e.pat.span());
                 let (es, ee) = br(e.expr.span());
                 self.plain_loops.push((br(e.for_token.span).0, ps, pe, es, ee, br(e.body.brace_token.span.open()).1));
@@ -1081,6 +1098,17 @@ fn finish(
                     cx.count("R10b(for (i, x) in ITER.enumerate() -> let items = ITER.collect(); for i in 0..items.len() { let x = items[i]; .. })");
                 }
             }
+        }
+    }
+    // R10d: `for i in (A..B).rev()` -> `let mut vx_rev_k = B; while vx_rev_k > A { vx_rev_k = vx_rev_k - 1; let i = vx_rev_k; .. }`
+    if req["r10d"].as_bool().unwrap_or(false) {
+        for (k, (fs, ps, pe, ee, ls, le, hs, he, bo)) in col.rev_loops.iter().enumerate() {
+            let x_txt = src[*ps..*pe].to_string();
+            let lo = src[*ls..*le].to_string();
+            let hi = src[*hs..*he].to_string();
+            cx.rep(*fs, *ee, &format!("let mut vx_rev_{k} = {hi}; while vx_rev_{k} > {lo}", k = k, hi = hi, lo = lo));
+            cx.ins_prio(*bo, &format!(" vx_rev_{k} = vx_rev_{k} - 1; let {x} = vx_rev_{k};", k = k, x = x_txt), false, -3);
+            cx.count("R10d(for i in (A..B).rev() -> let mut r = B; while r > A { r = r - 1; let i = r; .. })");
         }
     }
     // R10c: `for x in ITER` over a method-call iterator -> collect + index loop
